@@ -475,7 +475,7 @@ func (sw *sweeper) reads(a Analysis) {
 
 // ---------------------------------------------------------------- writes to configuration containers (C08)
 
-// accessPath renders how a container value is reached: e.g. "param:dst.ConstantMap", "param:p.conf.CompileOptions", "fresh".
+// accessPath renders how a container value is reached: e.g. "param#0.ConstantMap" (parameters by position), "param#0.conf.CompileOptions", "fresh".
 func (sw *sweeper) accessPath(v ssa.Value, fn *ssa.Function, depth int) string {
 	if depth == 0 {
 		sw.pathVisiting = map[ssa.Value]bool{}
@@ -490,6 +490,12 @@ func (sw *sweeper) accessPath(v ssa.Value, fn *ssa.Function, depth int) string {
 	defer delete(sw.pathVisiting, v)
 	switch x := v.(type) {
 	case *ssa.Parameter:
+		// by position, not by name: renaming a parameter must not change the path (receiver = #0)
+		for i, q := range x.Parent().Params {
+			if q == x {
+				return fmt.Sprintf("param#%d", i)
+			}
+		}
 		return "param:" + x.Name()
 	case *ssa.FreeVar:
 		return "captured:" + x.Name()
